@@ -1184,7 +1184,29 @@ func (sc *serverConn) writeGoAway(strm uint32, code ErrorCode, message string) {
 
 	fr.SetBody(ga)
 
-	sc.write(fr)
+	// Not sc.write: that waits for room in the queue for as long as it takes,
+	// and the queue only drains while the peer reads. A peer that had stopped
+	// reading before it broke the rules kept the loop that found the error
+	// parked here, so the connection was never torn down. Announcing the end
+	// is worth a bounded wait; ending is not optional.
+	sc.vs.ev(verifEvQueued)
+
+	t := time.NewTimer(writeDrainTimeout)
+
+	select {
+	case sc.writer <- fr:
+	case <-sc.writeStop:
+		sc.vs.ev(verifEvDropped)
+		ReleaseFrameHeader(fr)
+	case <-sc.writerGone:
+		sc.vs.ev(verifEvDropped)
+		ReleaseFrameHeader(fr)
+	case <-t.C:
+		sc.vs.ev(verifEvDropped)
+		ReleaseFrameHeader(fr)
+	}
+
+	t.Stop()
 
 	if sc.debug {
 		sc.logger.Printf(
